@@ -40,6 +40,7 @@ class Ctx:
         self.heap = {}                    # object id -> {'cls': qual, 'attrs': {}}
         self.max_depth = max_depth
         self.inline = inline
+        self.inline_only = None           # optional predicate on Func: only these callees are followed, every other package call stays a call
         self.no_inline = set(no_inline)
         self.counter = 0
         self.warnings = []
@@ -586,6 +587,9 @@ class Frame:
     def _is_append_chain(self, upd, me):
         if upd[0] == 'call' and upd[1] == 'append' and len(upd[2]) == 2 and not upd[3] and upd[2][0] == me and upd[2][1][0] in ('list', 'tuple'):
             return True                      # acc = np.append(acc, [a, b, ...])
+        if upd[0] == 'gamma' and ((upd[3] == me and upd[2][0] == 'listappend' and upd[2][1] == me) or
+                                  (upd[2] == me and upd[3][0] == 'listappend' and upd[3][1] == me)):
+            return True                      # if cond: acc.append(v)   (a filtering comprehension written as a loop)
         return upd[0] == 'listappend' and upd[1] == me
 
     def _append_chain(self, upd, me, init, key):
@@ -593,6 +597,13 @@ class Frame:
             # x = np.array([]); for ..: x = np.append(x, [a, b])   ->   the per-iteration groups concatenated in loop order
             if T.strip_nd(init) in (('list', ()), ('tuple', ())):
                 return ('concatmap', key, ('list', upd[2][1][1]))
+            return ('loopout', key, init, upd, FALSE)
+        if upd[0] == 'gamma':
+            cond, app = (upd[1], upd[2]) if upd[3] == me else (T.not_(upd[1]), upd[3])
+            if init in (('list', ()), ('tuple', ())):
+                fm = ('filtermap', key, cond, app[2])
+                ps = T.parity_slice(fm)
+                return ps if ps is not None else fm
             return ('loopout', key, init, upd, FALSE)
         # x = []; for ..: x.append(v)   ->   map over the loop (when the list starts empty and the append is unguarded)
         if init in (('list', ()), ('tuple', ())) and upd[3] == TRUE:
